@@ -257,12 +257,20 @@ inductive ROp where
   | multi (ks : List Key) (d : Nat) | req (k : Key) | dump
   deriving Repr
 
+/-- What the lock probes (`try_borrow_mut` / `try_borrow`) can tell about a cell. -/
+inductive Lock where
+  | free | shared | excl
+  deriving DecidableEq, Repr
+
 inductive Out where
   | val (v : Nat) | none | ok | err (e : Err) | panic | bool (b : Bool) | depth (d : Nat)
   | vacant | occupied | noParent
   | popped (m : PMap) | root (m : PMap)
   | dump (ms : List PMap)
   | vals (vs : List Nat)
+  -- C02 (Model/Borrow.lean): a granted guard, a request Rust would not compile, a bad guard id, lock dump
+  | guard (id : Nat) | illegal | invalid
+  | locks (ms : List (Key → Option (Nat × Lock)))
 
 def Out.ofOpt : Option Nat → Out
   | some v => .val v
@@ -561,6 +569,17 @@ def mapToSexp (n : Nat) (m : Key → Option Nat) : List Sexp :=
     | some v => some (.list [ofNat i, ofNat v])
     | Option.none => Option.none
 
+def Lock.toSexp : Lock → Sexp
+  | .free => .atom "f"
+  | .shared => .atom "r"
+  | .excl => .atom "w"
+
+def lockMapToSexp (n : Nat) (m : Key → Option (Nat × Lock)) : List Sexp :=
+  (List.range n).filterMap fun i =>
+    match m (.ty i) with
+    | some (v, l) => some (.list [ofNat i, ofNat v, l.toSexp])
+    | Option.none => Option.none
+
 def Out.toSexp (n : Nat) : Out → Sexp
   | .val v => .list [.atom "v", ofNat v]
   | .none => .atom "none"
@@ -576,6 +595,10 @@ def Out.toSexp (n : Nat) : Out → Sexp
   | .root m => .list (.atom "root" :: mapToSexp n m)
   | .dump ms => .list (.atom "dump" :: ms.map fun m => .list (mapToSexp n m))
   | .vals vs => .list (.atom "vals" :: vs.map ofNat)
+  | .guard id => .list [.atom "g", ofNat id]
+  | .illegal => .atom "illegal"
+  | .invalid => .atom "invalid"
+  | .locks ms => .list (.atom "locks" :: ms.map fun m => .list (lockMapToSexp n m))
 
 /-- Number of client types of the harness (`K0 … K7`). -/
 def nTypes : Nat := 8
